@@ -7,7 +7,7 @@ use rustc_middle::mir::{
     AggregateKind, AssertKind, BasicBlockData, Body, BorrowKind, Const as MirConst, Operand, Place,
     ProjectionElem, Rvalue, StatementKind, TerminatorKind, UnwindAction, VarDebugInfoContents,
 };
-use rustc_middle::ty::print::{with_crate_prefix, with_no_trimmed_paths, PrintTraitRefExt};
+use rustc_middle::ty::print::{with_crate_prefix, with_no_trimmed_paths, with_no_visible_paths, PrintTraitRefExt};
 use rustc_middle::ty::{self, GenericArgKind, GenericArgsRef, Instance, Ty, TyCtxt, TypingEnv};
 use rustc_span::Span;
 
@@ -21,10 +21,12 @@ pub struct Cx<'tcx> {
 
 thread_local! { pub static KRATE: std::cell::RefCell<String> = std::cell::RefCell::new(String::new()); }
 
-/// Print with full paths; the local crate is spelled by its name instead of `crate`.
+/// Print with full *definition* paths (no re-export/visible-path lookup, so the same item is
+/// spelled identically from every crate); the local crate is spelled by its name instead of
+/// `crate`, and the std facade crates `core`/`alloc` are spelled `std`.
 fn np<F: FnOnce() -> String>(f: F) -> String {
-    let s = with_crate_prefix!(with_no_trimmed_paths!(f()));
-    if !s.contains("crate::") {
+    let s = with_no_visible_paths!(with_crate_prefix!(with_no_trimmed_paths!(f())));
+    if !(s.contains("crate::") || s.contains("core::") || s.contains("alloc::")) {
         return s;
     }
     KRATE.with(|k| {
@@ -33,11 +35,16 @@ fn np<F: FnOnce() -> String>(f: F) -> String {
         let b = s.as_bytes();
         let mut i = 0;
         while i < b.len() {
-            if s[i..].starts_with("crate::")
-                && (i == 0 || !(b[i - 1].is_ascii_alphanumeric() || b[i - 1] == b'_'))
-            {
+            let boundary = i == 0 || !(b[i - 1].is_ascii_alphanumeric() || b[i - 1] == b'_');
+            if boundary && s[i..].starts_with("crate::") {
                 out.push_str(&k);
                 out.push_str("::");
+                i += 7;
+            } else if boundary && s[i..].starts_with("core::") {
+                out.push_str("std::");
+                i += 6;
+            } else if boundary && s[i..].starts_with("alloc::") {
+                out.push_str("std::");
                 i += 7;
             } else {
                 let c = s[i..].chars().next().unwrap();
@@ -67,12 +74,17 @@ impl<'tcx> Cx<'tcx> {
     pub fn span_j(&self, sp: Span) -> J {
         let sm = self.tcx.sess.source_map();
         let exp = sp.from_expansion();
+        // outermost (user-written) macro of the expansion chain, e.g. `debug_assert` for
+        // debug_assert! -> assert! -> panic!
         let mac = if exp {
-            let d = sp.ctxt().outer_expn_data();
-            Some(match d.kind {
-                rustc_span::ExpnKind::Macro(_, name) => name.to_string(),
-                ref k => k.descr().to_string(),
-            })
+            let mut name = None;
+            for d in sp.macro_backtrace() {
+                name = Some(match d.kind {
+                    rustc_span::ExpnKind::Macro(_, n) => n.to_string(),
+                    ref k => k.descr().to_string(),
+                });
+            }
+            name
         } else {
             None
         };
